@@ -135,7 +135,31 @@ def showLpp : Fw.Lpp → String
   | .reboot m => s!"reboot {m}"
   | .mode m => s!"mode {m}"
 
-def step (_ : Unit) (ws : List String) : Unit × String :=
+def showResult : Except PyErr (List Packet) → String
+  | .ok ps => "ok " ++ showPackets ps
+  | .error e => s!"err {e}"
+
+/-- state = the long-lived objects of one history (`new` starts another history).  History ops:
+`new` | `xmode <0/1>` | `negotiated <int>` | `H <method> <arg> ...` (the call under the current state; reply `v<version in force> <result>`) -/
+def step (st : Objs) (ws : List String) : Objs × String :=
+  match ws with
+  | ["new"] => (Objs.init, "ok")
+  | ["xmode", b] =>
+    match b.toNat? with
+    | some n => ((CfVerif.C08.step st (.setXmode (n != 0))).1, "ok")
+    | none => (st, "bad-op")
+  | ["negotiated", v] =>
+    match v.toInt? with
+    | some v => ((CfVerif.C08.step st (.negotiated v)).1, "ok")
+    | none => (st, "bad-op")
+  | "H" :: rest =>
+    match parseCall? rest with
+    | some c =>
+      match CfVerif.C08.step st (.call c) with
+      | (st', some d) => (st', s!"v{d.version} {showResult d.result}")
+      | (st', none) => (st', "bad-op")
+    | none => (st, "bad-op")
+  | _ =>
   let r : String :=
     match ws with
     | ["fwdecode", ver, hdr, data] =>
@@ -159,6 +183,6 @@ def step (_ : Unit) (ws : List String) : Unit × String :=
         | .error e => s!"err {e}"
       | _, _ => "bad-op"
     | [] => "bad-op"
-  ((), r)
+  (st, r)
 
-def main : IO Unit := runProto () step
+def main : IO Unit := runProto Objs.init step
